@@ -108,7 +108,9 @@ def r03a(ctx, run):
                                 jumps.append(c)
                                 break
                 if not jumps:
-                    run.finding(owner, "lookup-unused:%s" % field, lk.file, lk.ln, "scope target looked up in self.%s but no jump uses it (analysis lost the flow)" % field)
+                    run.finding(owner, "lookup-unused:%s" % field, lk.file, lk.ln, "the scope target looked up in self.%s is not what any jump / brif / switch entry of this function goes to: the transfer that leaves the scopes goes "
+                                "somewhere else (a block made or cached elsewhere), so it is not established that THIS jump's pending defers run on the way - each jump out of a "
+                                "scope must pass the unwinder for the frames it leaves, then go to the looked-up target" % field)
                     continue
                 unw = unwinder_loops(fn)
                 # calls to a function that itself contains the unwinder loop count as passing the unwinder
